@@ -21,6 +21,31 @@ type Storer struct {
 	OAuth2Confirmed bool     // new OAuth2 users are created confirmed (as authboss-sample does)
 
 	w *World
+	// Hook, if set, is called at the start of every storer operation (scheduling jitter and
+	// interleaving bookkeeping for the concurrent check; nil in the sequential monitors).
+	Hook func(op, arg string)
+}
+
+// NewStandaloneStorer returns a storer that is not attached to a sequential World: no tracing,
+// no fault injection; safe for concurrent use.
+func NewStandaloneStorer() *Storer {
+	return &Storer{users: map[string]*User{}, tokens: map[string][]string{}}
+}
+
+func (s *Storer) backend(op, arg string, write bool) error {
+	if s.Hook != nil {
+		s.Hook(op, arg)
+	}
+	if s.w == nil {
+		return nil
+	}
+	return s.w.backend(op, arg, write)
+}
+
+func (s *Storer) noteResult(r string) {
+	if s.w != nil {
+		s.w.noteResult(r)
+	}
 }
 
 func newStorer(w *World) *Storer {
@@ -216,14 +241,14 @@ func Diff(a, b *Snapshot) []Change {
 // --- authboss.ServerStorer and friends (traced, fault-injectable) ---
 
 func (s *Storer) Load(ctx context.Context, key string) (authboss.User, error) {
-	if err := s.w.backend("Load", key, false); err != nil {
+	if err := s.backend("Load", key, false); err != nil {
 		return nil, err
 	}
 	s.mu.Lock()
 	defer s.mu.Unlock()
 	u, ok := s.users[key]
 	if !ok {
-		s.w.noteResult("notfound")
+		s.noteResult("notfound")
 		return nil, authboss.ErrUserNotFound
 	}
 	return s.wrap(s.prep(u.Clone())), nil
@@ -231,19 +256,21 @@ func (s *Storer) Load(ctx context.Context, key string) (authboss.User, error) {
 
 func (s *Storer) prep(u *User) *User {
 	u.profileKeys = s.ProfileKeys
-	u.onArbitrary = s.w.noteArbitrary
+	if s.w != nil {
+		u.onArbitrary = s.w.noteArbitrary
+	}
 	return u
 }
 
 func (s *Storer) Save(ctx context.Context, user authboss.User) error {
 	u := unwrap(user)
-	if err := s.w.backend("Save", u.PID, true); err != nil {
+	if err := s.backend("Save", u.PID, true); err != nil {
 		return err
 	}
 	s.mu.Lock()
 	defer s.mu.Unlock()
 	if _, ok := s.users[u.PID]; !ok {
-		s.w.noteResult("notfound")
+		s.noteResult("notfound")
 		return authboss.ErrUserNotFound
 	}
 	s.users[u.PID] = u.Clone()
@@ -256,13 +283,13 @@ func (s *Storer) New(ctx context.Context) authboss.User {
 
 func (s *Storer) Create(ctx context.Context, user authboss.User) error {
 	u := unwrap(user)
-	if err := s.w.backend("Create", u.PID, true); err != nil {
+	if err := s.backend("Create", u.PID, true); err != nil {
 		return err
 	}
 	s.mu.Lock()
 	defer s.mu.Unlock()
 	if _, ok := s.users[u.PID]; ok {
-		s.w.noteResult("found")
+		s.noteResult("found")
 		return authboss.ErrUserFound
 	}
 	s.users[u.PID] = u.Clone()
@@ -270,7 +297,7 @@ func (s *Storer) Create(ctx context.Context, user authboss.User) error {
 }
 
 func (s *Storer) LoadByConfirmSelector(ctx context.Context, selector string) (authboss.ConfirmableUser, error) {
-	if err := s.w.backend("LoadByConfirmSelector", selector, false); err != nil {
+	if err := s.backend("LoadByConfirmSelector", selector, false); err != nil {
 		return nil, err
 	}
 	s.mu.Lock()
@@ -282,12 +309,12 @@ func (s *Storer) LoadByConfirmSelector(ctx context.Context, selector string) (au
 			}
 		}
 	}
-	s.w.noteResult("notfound")
+	s.noteResult("notfound")
 	return nil, authboss.ErrUserNotFound
 }
 
 func (s *Storer) LoadByRecoverSelector(ctx context.Context, selector string) (authboss.RecoverableUser, error) {
-	if err := s.w.backend("LoadByRecoverSelector", selector, false); err != nil {
+	if err := s.backend("LoadByRecoverSelector", selector, false); err != nil {
 		return nil, err
 	}
 	s.mu.Lock()
@@ -299,7 +326,7 @@ func (s *Storer) LoadByRecoverSelector(ctx context.Context, selector string) (au
 			}
 		}
 	}
-	s.w.noteResult("notfound")
+	s.noteResult("notfound")
 	return nil, authboss.ErrUserNotFound
 }
 
@@ -313,7 +340,7 @@ func (s *Storer) sortedLocked() []string {
 }
 
 func (s *Storer) NewFromOAuth2(ctx context.Context, provider string, details map[string]string) (authboss.OAuth2User, error) {
-	if err := s.w.backend("NewFromOAuth2", provider+"|"+details["uid"], false); err != nil {
+	if err := s.backend("NewFromOAuth2", provider+"|"+details["uid"], false); err != nil {
 		return nil, err
 	}
 	s.mu.Lock()
@@ -329,7 +356,7 @@ func (s *Storer) NewFromOAuth2(ctx context.Context, provider string, details map
 func (s *Storer) SaveOAuth2(ctx context.Context, user authboss.OAuth2User) error {
 	u := unwrap(user)
 	pid := authboss.MakeOAuth2PID(u.OAuth2Provider, u.OAuth2UID)
-	if err := s.w.backend("SaveOAuth2", pid, true); err != nil {
+	if err := s.backend("SaveOAuth2", pid, true); err != nil {
 		return err
 	}
 	s.mu.Lock()
@@ -342,7 +369,7 @@ func (s *Storer) SaveOAuth2(ctx context.Context, user authboss.OAuth2User) error
 }
 
 func (s *Storer) AddRememberToken(ctx context.Context, pid, token string) error {
-	if err := s.w.backend("AddRememberToken", pid, true); err != nil {
+	if err := s.backend("AddRememberToken", pid, true); err != nil {
 		return err
 	}
 	s.mu.Lock()
@@ -352,7 +379,7 @@ func (s *Storer) AddRememberToken(ctx context.Context, pid, token string) error 
 }
 
 func (s *Storer) DelRememberTokens(ctx context.Context, pid string) error {
-	if err := s.w.backend("DelRememberTokens", pid, true); err != nil {
+	if err := s.backend("DelRememberTokens", pid, true); err != nil {
 		return err
 	}
 	s.mu.Lock()
@@ -362,7 +389,7 @@ func (s *Storer) DelRememberTokens(ctx context.Context, pid string) error {
 }
 
 func (s *Storer) UseRememberToken(ctx context.Context, pid, token string) error {
-	if err := s.w.backend("UseRememberToken", pid, true); err != nil {
+	if err := s.backend("UseRememberToken", pid, true); err != nil {
 		return err
 	}
 	s.mu.Lock()
@@ -373,6 +400,6 @@ func (s *Storer) UseRememberToken(ctx context.Context, pid, token string) error 
 			return nil
 		}
 	}
-	s.w.noteResult("notfound")
+	s.noteResult("notfound")
 	return authboss.ErrTokenNotFound
 }
